@@ -140,6 +140,13 @@ class Models:
             if r is not None: return r
         return None
 
+    def new_expr(self, unit, n, elem):
+        for p in self.plugins:
+            if p.is_model_type(elem):
+                r = p.new_expr(unit, n, elem)
+                if r is not None: return r
+        return None
+
     def exception_code(self, unit, e):
         for p in self.plugins:
             r = p.exception_code(unit, e)
@@ -187,6 +194,7 @@ class Plugin:
     def construct_expr(self, unit, n): return None
     def lambda_expr(self, unit, n): return None
     def placement_new(self, unit, n): return None
+    def new_expr(self, unit, n, elem): return None
     def exception_code(self, unit, e): return None
     def range_for(self, unit, n, ind): return False
     def try_stmt(self, unit, n, ind): return False
